@@ -1,24 +1,36 @@
-"""Cache rules K-R1..5 (C15): write discipline of OFXClient.request_profile."""
+"""Cache rules K-R1..4 (C15): write discipline of OFXClient.request_profile.
+
+The rules work on the FLATTENED method (private helpers inlined) and on its enumerated paths; the objects
+they talk about are identified by ROLE, never by name:
+  net response  = the value returned by self._request_profile(...)
+  cache path    = the path that is opened for reading (its resolved expression)
+  cached copy   = whatever derives from that read
+  a cache write = an open-for-writing / write_bytes, and a rename (os.replace...) onto some path
+`origins()` follows a value back along ONE path (through locals, with-bindings, tuple unpacking and the
+arguments fed to an object's methods), so `parser.parse(x); ofx = parser.convert(); t = ofx.a[0]` derives from x."""
 from __future__ import annotations
 
 import ast
 from typing import List, Optional, Set
 
-from .cfg import CFG, Node, assume
-from .dataflow import Reaching, local_defs, own_nodes, own_statements, params_of, resolve_values
-from .match import norm, text
+from .cfg import CFG
+from .dataflow import own_nodes, params_of
+from .match import Expander, text
+from .paths import Cond, PathList, any_of, atom, enumerate_paths, feasible, implies, origins, simple_conds, value_on_path
 from .report import Report
-from .rules_client import _bind, _sources, client_class, loc
+from .rules_client import _bind, client_class, loc, need
 from .source import AnalysisError, Project, dotted
 
 WRITE_MODES = ("w", "a", "x", "+")
+NET = "call:self._request_profile"
+UNIQUE_MARKS = ("uuid", "mkstemp", "NamedTemporaryFile", "getpid", "token_hex", "token_urlsafe", "get_ident")
 
 
 def _open_for_write(c: ast.Call) -> Optional[ast.AST]:
     """path expression if the call opens a file for writing"""
     d = dotted(c.func) or ""
     if d.split(".")[-1] == "open":
-        if isinstance(c.func, ast.Attribute) and d != "io.open" and d != "os.open" and d.split(".")[0] not in ("io", "os", "builtins"):
+        if isinstance(c.func, ast.Attribute) and d.split(".")[0] not in ("io", "os", "builtins"):
             # path.open("wb")
             mode = c.args[0] if c.args else next((k.value for k in c.keywords if k.arg == "mode"), None)
             if isinstance(mode, ast.Constant) and any(m in str(mode.value) for m in WRITE_MODES):
@@ -32,169 +44,452 @@ def _open_for_write(c: ast.Call) -> Optional[ast.AST]:
     return None
 
 
+def _open_for_read(c: ast.Call) -> Optional[ast.AST]:
+    d = dotted(c.func) or ""
+    if d.split(".")[-1] == "open":
+        if isinstance(c.func, ast.Attribute) and d.split(".")[0] not in ("io", "os", "builtins"):
+            mode = c.args[0] if c.args else next((k.value for k in c.keywords if k.arg == "mode"), None)
+            if mode is None or (isinstance(mode, ast.Constant) and not any(m in str(mode.value) for m in WRITE_MODES)):
+                return c.func.value
+            return None
+        mode = c.args[1] if len(c.args) > 1 else next((k.value for k in c.keywords if k.arg == "mode"), None)
+        if c.args and (mode is None or (isinstance(mode, ast.Constant) and not any(m in str(mode.value) for m in WRITE_MODES))):
+            return c.args[0]
+        return None
+    if isinstance(c.func, ast.Attribute) and c.func.attr in ("read_bytes", "read_text") and not c.args:
+        return c.func.value
+    return None
+
+
 def _replace_call(c: ast.Call):
     """(src, dst) for os.replace/os.rename/shutil.move(src, dst) or src.replace(dst)/src.rename(dst) on paths"""
     d = dotted(c.func) or ""
-    if d in ("os.replace", "os.rename", "shutil.move") and len(c.args) == 2:
+    if d in ("os.replace", "os.rename", "shutil.move", "shutil.copy", "shutil.copyfile", "shutil.copy2") and len(c.args) == 2:
         return c.args[0], c.args[1]
     if isinstance(c.func, ast.Attribute) and c.func.attr in ("replace", "rename") and len(c.args) == 1 and not isinstance(c.func.value, ast.Constant) and "path" in text(c.func.value).lower():
         return c.func.value, c.args[0]
     return None
 
 
+def _rtext(q, cfg, e, upto) -> str:
+    return text(value_on_path(q, cfg, e, upto=upto))
+
+
+def _facts(q, upto_mark):
+    """conditions established on q before the node (list of CW)"""
+    return q.conds[:upto_mark]
+
+
+def _atom_exprs(c: Cond):
+    """(atom text, parsed expression) for the atoms of a condition"""
+    for a in sorted(c.atoms()):
+        try:
+            yield a, ast.parse(a, mode="eval").body
+        except SyntaxError:
+            continue
+
+
 def k_rules(p: Project, rep: Report):
     ci = client_class(p)
-    fn = ci.own_func("request_profile")
-    if fn is None:
-        raise AnalysisError("OFXClient.request_profile not found")
-    cfg = CFG(fn)
-    reach = Reaching(cfg)
-    defs = local_defs(fn)
+    fn = need(p, ci, "request_profile")
+    params = params_of(fn)
+    all_paths = enumerate_paths(fn, None, Expander(fn), resolve=False)
+    cfg = all_paths.cfg
+    paths = PathList(q for q in all_paths if feasible(q, cfg))
+    paths.cfg = cfg
 
-    # -- locate the cache path: the path tested with .exists() and read
-    exists = [n for n in cfg.nodes if n.kind == "test" and text(n.stmt.test).endswith(".exists()")]
-    if not exists:
-        raise AnalysisError("K: request_profile no longer tests whether a cached profile exists")
-    cache = text(exists[0].stmt.test)[: -len(".exists()")]
+    def nodes_with(pred):
+        out = []
+        for n in cfg.nodes:
+            if n.stmt is None or n.kind in ("join", "handlers"):
+                continue
+            for c in n.calls():
+                r = pred(c)
+                if r is not None:
+                    out.append((n, c, r))
+        return out
 
-    writes = []  # (node, call, path expr)
-    for n in cfg.nodes:
-        for c in n.calls():
-            pth = _open_for_write(c)
-            if pth is not None:
-                writes.append((n, c, pth))
-    replaces = []
-    for n in cfg.nodes:
-        for c in n.calls():
-            r = _replace_call(c)
-            if r is not None:
-                replaces.append((n, c, r[0], r[1]))
+    reads = nodes_with(_open_for_read)
+    writes = nodes_with(_open_for_write)
+    replaces = nodes_with(_replace_call)
+    nets = nodes_with(lambda c: True if text(c.func) == "self._request_profile" else None)
+    if not nets:
+        raise AnalysisError("K: request_profile no longer calls self._request_profile")
+    if not reads:
+        raise AnalysisError("K: request_profile no longer reads a cached profile")
     if not writes:
         raise AnalysisError("K: request_profile no longer writes the cache")
+    rep.unit("request_profile_paths", len(paths))
 
-    rep.rule("K-R1", "validate before you overwrite: every cache write is dominated by parsing and converting the server's response, by the status-code check and by the check that the server's profile is not older than the cached one; it is unreachable on a dry run; what is written is the response just validated")
-    resp_def = [d for d in defs.get("response", []) if d.kind == "assign" and isinstance(d.value, ast.Call) and text(d.value.func) == "self._request_profile"]
-    if not resp_def:
-        raise AnalysisError("K-R1: response = self._request_profile(...) not found")
-    resp_node = cfg.node_of(resp_def[0].stmt)
-    parses = [n for n in cfg.nodes_calling(lambda c: isinstance(c.func, ast.Attribute) and c.func.attr == "parse" and c.args and text(c.args[0]) == "response") if resp_node.id in _before(cfg, n)]
-    converts = [n for n in cfg.nodes_calling(lambda c: isinstance(c.func, ast.Attribute) and c.func.attr == "convert") if parses and any(cfg.dominated_by(n.id, [q.id]) for q in parses)]
-    # "status is success": an assert, or the true branch of a test, of `<...>.status.code == 0`
-    status = [n for n in cfg.nodes if n.kind == "assert" and text(norm(n.stmt.test)).endswith("status.code == 0")]
-    for n in cfg.nodes:
-        if n.kind == "test" and text(norm(n.stmt.test)).endswith("status.code == 0"):
-            then = [x for x in cfg.nodes if x.kind == "join" and x.stmt is n.stmt and x.label == "then"]
-            status += then
-    dates = [n for n in cfg.nodes if n.kind in ("assert", "test") and text(norm(n.stmt.test)) in ("dtprofup is None or dtprofup <= dtprofup_server", "dtprofup is None or dtprofup < dtprofup_server")]
-    targets = [(n, c) for n, c, _ in writes] + [(n, c) for n, c, _, _ in replaces]
+    # the cache path: resolved expression(s) of what is opened for reading
+    cache_texts: Set[str] = set()
+    cache_exprs = {}
+    for q in paths:
+        for n, c, pth in reads:
+            i = q.index_of(n.id)
+            if i is not None:
+                v = value_on_path(q, cfg, pth, upto=i)
+                cache_texts.add(text(v))
+                cache_exprs[text(v)] = v
+    if not cache_texts:
+        raise AnalysisError("K: no path of request_profile reaches the cache read")
+
+    def is_cache(t: str) -> bool:
+        return t in cache_texts or any(t == f"str({c})" for c in cache_texts)
+
+    def from_cache(src: Set[str]) -> bool:
+        return any(s.startswith("open[") and not any(m in s.split("]")[0] for m in WRITE_MODES) and is_cache(s.split("]:", 1)[1]) for s in src)
+
+    def net_atoms(q, facts, suffix_pred):
+        """[(atom text, expr)] of atoms in facts that mention a value derived from the net response and satisfy pred"""
+        out = []
+        for cw in facts:
+            for a, e in _atom_exprs(cw[0]):
+                if suffix_pred(a, e):
+                    out.append((a, e, cw.pos))
+        return out
+
+    # ------------------------------------------------------------------ K-R1
+    rep.rule("K-R1", "validate before you overwrite: on every path, a cache write / rename comes after the server's response has been parsed and converted, after a check that its status code is 0, and after a check that the server's DTPROFUP is not older than the one held; it is unreachable on a dry run; what is written derives from the response just validated, and an 'up to date' answer (status 1) returns the cached copy")
+    targets = [(n, c) for n, c, _ in writes] + [(n, c) for n, c, _ in replaces]
+    held_exprs = []
+    for n, c, _ in nets:
+        rfn0 = ci.own_func("_request_profile")
+        b = _bind(c, [a.arg for a in rfn0.args.args[1:]]) if rfn0 is not None else {k.arg: k.value for k in c.keywords}
+        if "dtprofup" in b:
+            held_exprs.append((n, b["dtprofup"]))
     for n, c in targets:
         lab = text(c.func)
-        for name, doms in (("parsed", parses), ("converted", converts), ("status-checked", status), ("not-older-than-cache", dates)):
-            ok = bool(doms) and cfg.dominated_by(n.id, [d.id for d in doms])
-            why = {"parsed": "the response is stored before it has been parsed: malformed data replaces a good cache and every later request fails while reading it",
-                   "converted": "the response is stored before it has been converted/validated",
-                   "status-checked": "the response is stored whatever its status code (an error reply replaces the cached profile)",
-                   "not-older-than-cache": "the response is stored without checking that the server's DTPROFUP is not older than the cached one: a newer profile can be replaced by an older one"}[name]
-            rep.check("K-R1", f"request_profile:{lab}:{name}", ok, why if not ok else "", loc(p, c))
-        r = cfg.reachable(cfg.entry.id, edge_filter=assume({"dryrun": True}))
-        rep.check("K-R1", f"request_profile:{lab}:not-on-dryrun", n.id not in r, "the cache is written on a dry run" if n.id in r else "", loc(p, c))
-    # status guard semantics: the write branch is the `== 0` side
-    for sn in status:
-        pass
-    wr = [c for c in own_nodes(fn) if isinstance(c, ast.Call) and isinstance(c.func, ast.Attribute) and c.func.attr in ("write", "write_bytes")]
-    for c in wr:
-        node = [n for n in cfg.nodes if any(x is c for x in n.calls())][0]
-        src = _sources(c.args[0], node, reach) if c.args else set()
-        ok = src == {"call:self._request_profile"}
-        rep.check("K-R1", "request_profile:writes-validated-response", ok, f"the bytes written derive from {sorted(src)}, not from the response that was validated" if not ok else "", loc(p, c))
-    # up-to-date branch returns the cached copy
-    ok = any(isinstance(s, ast.Assign) and text(s.targets[0]) == "response" and text(s.value) == "profrs" for s in own_statements(fn))
-    rep.check("K-R1", "request_profile:up-to-date-returns-cached", ok, "" if ok else "when the server says the profile is up to date the cached copy is not what is returned", loc(p, fn))
+        verdict = {"parsed": True, "converted": True, "status-checked": True, "not-older-than-cache": True, "not-on-dryrun": True}
+        undec = set()
+        through = 0
+        for q in paths:
+            i = q.index_of(n.id)
+            if i is None:
+                continue
+            through += 1
+            facts = q.conds[: q.marks[n.id]]
+            # parse / convert of the net response before the write
+            parsed_at = None
+            parser_obj = None
+            for j in range(i):
+                m = cfg.nodes[q.nodes[j]]
+                if m.stmt is None or m.kind in ("join", "handlers"):
+                    continue
+                for cc in m.calls():
+                    if isinstance(cc.func, ast.Attribute) and cc.func.attr in ("parse", "feed", "fromstring") and cc.args and NET in origins(q, cfg, cc.args[0], j, params):
+                        parsed_at, parser_obj = j, text(cc.func.value)
+            if parsed_at is None:
+                verdict["parsed"] = False
+                verdict["converted"] = False
+            else:
+                conv = False
+                for j in range(parsed_at, i):
+                    m = cfg.nodes[q.nodes[j]]
+                    if m.stmt is None or m.kind in ("join", "handlers"):
+                        continue
+                    for cc in m.calls():
+                        if isinstance(cc.func, ast.Attribute) and cc.func.attr == "convert" and text(cc.func.value) == parser_obj:
+                            conv = True
+                if not conv:
+                    verdict["converted"] = False
+            # status code of the net response is 0
+            goal_items = []
+            mention = False
+            for cw in facts:
+                for a, e in _atom_exprs(cw[0]):
+                    if "status.code" not in a:
+                        continue
+                    # which side carries the status code
+                    operand = None
+                    form = None
+                    if isinstance(e, ast.Compare) and isinstance(e.ops[0], ast.Eq):
+                        sides = [e.left, e.comparators[0]]
+                        code = [s_ for s_ in sides if text(s_).endswith("status.code")]
+                        const = [s_ for s_ in sides if isinstance(s_, ast.Constant)]
+                        if code and const:
+                            operand, form = code[0], ("eq", const[0].value)
+                    elif isinstance(e, ast.Call) and text(e.func) == "bool" and text(e.args[0]).endswith("status.code"):
+                        operand, form = e.args[0], ("truthy", None)
+                    if operand is None:
+                        undec.add(f"status test `{a}` not understood")
+                        mention = True
+                        continue
+                    if NET not in origins(q, cfg, operand, cw.pos, params):
+                        continue
+                    mention = True
+                    if form == ("eq", 0):
+                        goal_items.append(atom(a, True))
+                    elif form[0] == "truthy":
+                        goal_items.append(atom(a, False))
+            if not goal_items:
+                if not mention or not undec:
+                    verdict["status-checked"] = False
+            else:
+                r = implies(facts, any_of(*goal_items))
+                if r is False:
+                    verdict["status-checked"] = False
+                elif r is None:
+                    undec.add("status check: too many conditions")
+            # not older than what is held
+            held_none = False
+            held_names: Set[str] = set()
+            for hn, he in held_exprs:
+                hi = q.index_of(hn.id)
+                if hi is None:
+                    continue
+                hv = value_on_path(q, cfg, he, upto=hi)
+                if isinstance(hv, ast.Constant) and hv.value is None:
+                    held_none = True
+                held_names.add(text(he))
+            if not held_none:
+                items = []
+                seen_cmp = False
+                for cw in facts:
+                    for a, e in _atom_exprs(cw[0]):
+                        if isinstance(e, ast.Compare) and isinstance(e.ops[0], ast.Lt):
+                            l, r_ = e.left, e.comparators[0]
+                            lo, ro = origins(q, cfg, l, cw.pos, params), origins(q, cfg, r_, cw.pos, params)
+                            l_net, r_net = NET in lo, NET in ro
+                            l_held = from_cache(lo) or text(l) in held_names
+                            r_held = from_cache(ro) or text(r_) in held_names
+                            if l_net and r_held and not r_net:
+                                seen_cmp = True
+                                items.append(atom(a, False))  # not (server < held)
+                                items.append(atom(f"{text(r_)} is None", True))
+                            elif r_net and l_held and not l_net:
+                                seen_cmp = True
+                                items.append(atom(a, True))  # held < server
+                                items.append(atom(f"{text(l)} is None", True))
+                for h in sorted(held_names):
+                    if h.isidentifier():
+                        items.append(atom(f"{h} is None", True))
+                if not items:
+                    verdict["not-older-than-cache"] = False
+                else:
+                    r = implies(facts, any_of(*items))
+                    if r is False:
+                        verdict["not-older-than-cache"] = False
+                    elif r is None:
+                        undec.add("date check: too many conditions")
+            # dry run
+            if "dryrun" in params:
+                r = implies(facts, atom("bool(dryrun)", False))
+                if r is False:
+                    verdict["not-on-dryrun"] = False
+        if through == 0:
+            continue
+        why = {"parsed": "the response is stored before it has been parsed: malformed data replaces a good cache and every later request fails while reading it",
+               "converted": "the response is stored before it has been converted/validated",
+               "status-checked": "the response is stored whatever its status code (an error reply replaces the cached profile)",
+               "not-older-than-cache": "the response is stored without checking that the server's DTPROFUP is not older than the cached one: a newer profile can be replaced by an older one",
+               "not-on-dryrun": "the cache is written on a dry run"}
+        for name, ok in verdict.items():
+            if not ok or not undec or name in ("parsed", "converted", "not-on-dryrun"):
+                rep.check("K-R1", f"request_profile:{lab}:{name}", ok, why[name] if not ok else "", loc(p, c))
+        for u in sorted(undec):
+            rep.note(f"K-R1 undecided for {lab}: {u}")
 
+    # what is written is the validated response
+    for n, c, _ in nodes_with(lambda c: True if isinstance(c.func, ast.Attribute) and c.func.attr in ("write", "write_bytes", "write_text", "writelines") and c.args else None) + nodes_with(lambda c: True if (dotted(c.func) or "") in ("shutil.copyfileobj",) and c.args else None):
+        srcs: Set[str] = set()
+        for q in paths:
+            i = q.index_of(n.id)
+            if i is not None:
+                srcs |= origins(q, cfg, c.args[0], i, params)
+        if not srcs:
+            continue
+        ok = NET in srcs and not from_cache(srcs)
+        rep.check("K-R1", "request_profile:writes-validated-response", ok, f"the bytes written derive from {sorted(s for s in srcs if not s.startswith(('const:', 'fn:')))}, not only from the response that was validated" if not ok else "", loc(p, c))
+    # 'up to date' returns the cached copy; a fresh profile returns the server's
+    ret_ok, ret_seen = True, 0
+    bad = ""
+    for q in paths:
+        if q.outcome != "return" or q.value is None:
+            continue
+        facts = simple_conds(q.conds)
+        for cw in q.conds:
+            for a, e in _atom_exprs(cw[0]):
+                if isinstance(e, ast.Compare) and isinstance(e.ops[0], ast.Eq) and "status.code" in a:
+                    sides = [e.left, e.comparators[0]]
+                    const = [s_ for s_ in sides if isinstance(s_, ast.Constant)]
+                    code = [s_ for s_ in sides if text(s_).endswith("status.code")]
+                    if const and code and const[0].value == 1 and facts.get(a) is True and NET in origins(q, cfg, code[0], cw.pos, params):
+                        ret_seen += 1
+                        src = origins(q, cfg, q.value, len(q.nodes) - 1, params)
+                        if not from_cache(src) or NET in src:
+                            ret_ok = False
+                            bad = f"returns a value derived from {sorted(s for s in src if not s.startswith(('const:', 'fn:')))}"
+    if ret_seen:
+        rep.check("K-R1", "request_profile:up-to-date-returns-cached", ret_ok, "" if ret_ok else f"when the server says the profile is up to date the cached copy is not what is returned ({bad})", loc(p, fn))
+    else:
+        rep.note("K-R1 undecided: no `status.code == 1` branch recognised")
+
+    # ------------------------------------------------------------------ K-R2
     rep.rule("K-R2", "the cache is replaced atomically: nothing is opened for writing at the cache path itself; the bytes go to a different, per-writer-unique name in the same directory, and every such write is followed on all normal paths by an atomic rename onto the cache path")
     for n, c, pth in writes:
-        vals = [text(v) for v in resolve_values(pth, n, reach)]
-        inplace = any(v == cache or v == f"str({cache})" for v in vals) or text(pth) == cache
-        rep.check("K-R2", f"request_profile:{text(c.func)}:not-in-place", not inplace, f"the cache file {cache} is opened for writing in place: a crash mid-write, or a second writer, leaves a truncated or interleaved file and every later request fails while parsing it" if inplace else "", loc(p, c))
+        lab = text(c.func)
+        inplace = False
+        unique = True
+        samedir: Optional[bool] = True
+        renamed = True
+        srcs_all: Set[str] = set()
+        through = 0
+        for q in paths:
+            i = q.index_of(n.id)
+            if i is None:
+                continue
+            through += 1
+            wt = _rtext(q, cfg, pth, i)
+            if is_cache(wt) or wt in (f"str({c_})" for c_ in cache_texts):
+                inplace = True
+                continue
+            src = origins(q, cfg, pth, i, params)
+            srcs_all |= src
+            if not any(any(mk in s for mk in UNIQUE_MARKS) for s in src):
+                unique = False
+            # next to the cache: built from the cache path or from its directory
+            sd = None
+            for ct, ce in cache_exprs.items():
+                dirs = {f"{ct}.parent", f"os.path.dirname({ct})"}
+                if isinstance(ce, ast.BinOp) and isinstance(ce.op, ast.Div):
+                    dirs.add(text(ce.left))
+                if isinstance(ce, ast.Call) and (dotted(ce.func) or "").endswith("path.join") and len(ce.args) > 1:
+                    dirs.add(text(ce.args[0]))
+                if any(wt.startswith(pref) for pref in (f"{ct}.with_name(", f"{ct}.with_suffix(", f"{ct}.with_stem(", f"{ct}.parent /", f"str({ct}) +", f"f'{{{ct}}}")) or any(wt.startswith(f"{d} /") or wt.startswith(f"({d}) /") or wt.startswith(f"os.path.join({d},") for d in dirs) or any(f"dir={d}" in wt for d in dirs):
+                    sd = True
+            if sd is None:
+                if "gettempdir" in wt or wt.startswith(("'/tmp", "Path('/tmp", "tempfile.mkstemp()", "tempfile.NamedTemporaryFile()")) or (("mkstemp(" in wt or "NamedTemporaryFile(" in wt) and "dir=" not in wt):
+                    sd = False
+            if sd is False:
+                samedir = False
+            elif sd is None and samedir:
+                samedir = None
+            # renamed onto the cache on every normal continuation
+            if q.outcome in ("return", "fall"):
+                ok = False
+                for rn, rc, (s_, d_) in replaces:
+                    k = q.index_of(rn.id)
+                    if k is not None and k > i and _rtext(q, cfg, s_, k) == wt and is_cache(_rtext(q, cfg, d_, k)):
+                        ok = True
+                if not ok:
+                    renamed = False
+        if not through:
+            continue
+        cache_l = sorted(cache_texts)[0]
+        rep.check("K-R2", f"request_profile:{lab}:not-in-place", not inplace, f"the cache file ({cache_l}) is opened for writing in place: a crash mid-write, or a second writer, leaves a truncated or interleaved file and every later request fails while parsing it" if inplace else "", loc(p, c))
         if inplace:
             continue
-        src = _sources(pth, n, reach)
-        unique = any(s in ("self.uuid", "call:self.uuid") or "uuid" in s or "mkstemp" in s or "NamedTemporaryFile" in s or "getpid" in s or "token_hex" in s for s in src)
-        rep.check("K-R2", f"request_profile:{text(c.func)}:temp-name-unique-per-writer", unique, f"the temporary name derives from {sorted(src)} only: two concurrent writers open the same temporary file and interleave their output" if not unique else "", loc(p, c))
-        samedir = any(cache in v or "persistdir" in v for v in vals) or any(cache.split(".")[0] in s for s in src) or any("persist" in v for v in vals)
-        rep.check("K-R2", f"request_profile:{text(c.func)}:temp-in-cache-directory", samedir, "the temporary file is not created next to the cache file (rename is only atomic within one file system)" if not samedir else "", loc(p, c))
-        followers = [rn for rn, rc, s_, d_ in replaces if text(s_) == text(pth) and text(d_) == cache]
-        ok = bool(followers) and cfg.must_pass_through([cfg.exit.id], [f.id for f in followers], edge_filter=cfg.normal_only(), start=n.id)
-        rep.check("K-R2", f"request_profile:{text(c.func)}:renamed-onto-cache", ok, f"the temporary file is not renamed onto {cache} (os.replace) on every normal path after it was written" if not ok else "", loc(p, c))
-    for n, c, s_, d_ in replaces:
-        atomic = (dotted(c.func) or "") in ("os.replace", "os.rename") or (isinstance(c.func, ast.Attribute) and c.func.attr in ("replace", "rename"))
+        shown = sorted(s for s in srcs_all if not s.startswith(("const:", "fn:")))
+        rep.check("K-R2", f"request_profile:{lab}:temp-name-unique-per-writer", unique, f"the temporary name derives from {shown} only: two concurrent writers open the same temporary file and interleave their output" if not unique else "", loc(p, c))
+        if samedir is None:
+            rep.note(f"K-R2 undecided: cannot tell whether the temporary file of {lab} lives next to the cache")
+        else:
+            rep.check("K-R2", f"request_profile:{lab}:temp-in-cache-directory", samedir, "the temporary file is not created next to the cache file (rename is only atomic within one file system)" if not samedir else "", loc(p, c))
+        rep.check("K-R2", f"request_profile:{lab}:renamed-onto-cache", renamed, f"the temporary file is not renamed onto the cache path (os.replace) on every normal path after it was written" if not renamed else "", loc(p, c))
+    for n, c, (s_, d_) in replaces:
+        atomic = (dotted(c.func) or "") in ("os.replace", "os.rename") or (isinstance(c.func, ast.Attribute) and c.func.attr in ("replace", "rename") and not (dotted(c.func) or "").startswith("shutil"))
         rep.check("K-R2", f"request_profile:{text(c.func)}:atomic", atomic, "the move onto the cache path is not an atomic rename" if not atomic else "", loc(p, c))
 
+    # ------------------------------------------------------------------ K-R3
     rep.rule("K-R3", "the cache path identifies the server: ORG, FID and URL are three separate obligations, each must contribute to the file name unconditionally (not only as a fallback for another component)")
-    fname_defs = defs.get("filename", []) or defs.get(cache, [])
-    name_expr = None
-    for d in defs.get(cache, []):
-        if d.kind == "assign":
-            name_expr = d.value
-    comps = _unconditional_components(name_expr, defs)
+    comps: Optional[Set[str]] = None
+    for ct, ce in cache_exprs.items():
+        cs = _unconditional_components(ce)
+        comps = cs if comps is None else (comps & cs)
+    comps = comps or set()
+    where = reads[0][1]
     for comp, attr in (("org", "self.org"), ("fid", "self.fid"), ("url", "self.url")):
         ok = attr in comps
-        rep.check("K-R3", f"request_profile:cache-key({comp})", ok, f"the cache file name does not always depend on {attr} (components used unconditionally: {sorted(comps)}): two servers that differ only in {comp.upper()} share one cache entry, and a profile cached from one is used for the other" if not ok else "", loc(p, name_expr if name_expr is not None else fn))
+        rep.check("K-R3", f"request_profile:cache-key({comp})", ok, f"the cache file name does not always depend on {attr} (components used unconditionally: {sorted(comps)}): two servers that differ only in {comp.upper()} share one cache entry, and a profile cached from one is used for the other" if not ok else "", loc(p, where))
 
+    # ------------------------------------------------------------------ K-R4
     rep.rule("K-R4", "ask with the date you hold: the DTPROFUP passed to _request_profile is the one parsed from the cached profile when a cache file was read and None otherwise; _request_profile sends that date (1990-01-01 only when None)")
-    calls = cfg.nodes_calling(lambda c: text(c.func) == "self._request_profile")
-    for n in calls:
-        c = [x for x in n.calls() if text(x.func) == "self._request_profile"][0]
-        kw = [k for k in c.keywords if k.arg == "dtprofup"]
-        if not kw:
+    for n, c, _ in nets:
+        held = [he for hn, he in held_exprs if hn is n]
+        if not held:
             rep.check("K-R4", "request_profile:passes-dtprofup", False, "the cached profile's date is not passed on: the server is always asked as if nothing were cached", loc(p, c))
             continue
-        for flag, want in ((True, {"proftrnrs.profrs.dtprofup"}), (False, {"None"})):
-            rr = Reaching(cfg, edge_filter=_assume_exists(cache, flag))
-            vals = {text(v) for v in resolve_values(kw[0].value, n, rr)}
-            ok = vals == want
-            rep.check("K-R4", f"request_profile:dtprofup-when-cache-{'present' if flag else 'absent'}", ok, f"with the cache {'present' if flag else 'absent'} the date sent is {sorted(vals)}; expected {sorted(want)}" if not ok else "", loc(p, c))
-    # the cached date comes from the cached file's content
-    cached_parse = [n for n in cfg.nodes_calling(lambda c: isinstance(c.func, ast.Attribute) and c.func.attr == "parse" and c.args and text(c.args[0]) == "profrs")]
-    ok = bool(cached_parse)
-    rep.check("K-R4", "request_profile:cached-date-from-cached-file", ok, "" if ok else "the held date is not read from the cached profile", loc(p, fn))
-    rfn = ci.own_func("_request_profile")
-    rcfg = CFG(rfn)
-    rreach = Reaching(rcfg)
-    for n in rcfg.nodes_calling(lambda c: isinstance(c.func, ast.Name) and c.func.id == "PROFRQ"):
-        c = [x for x in n.calls() if isinstance(x.func, ast.Name) and x.func.id == "PROFRQ"][0]
-        b = _bind(c, [])
-        src = _sources(b.get("dtprofup"), n, rreach) if "dtprofup" in b else set()
-        ok = "param:dtprofup" in src and all(s == "param:dtprofup" or s.startswith("const:") or s in ("global:UTC", "fn:datetime") or "datetime" in s for s in src)
-        rep.check("K-R4", "_request_profile:PROFRQ(dtprofup)", ok, f"PROFRQ.dtprofup derives from {sorted(src)}" if not ok else "", loc(p, c))
-        fallback = [s for s in own_statements(rfn) if isinstance(s, ast.If) and text(norm(s.test)) == "dtprofup is None"]
-        ok = bool(fallback)
-        rep.check("K-R4", "_request_profile:default-only-when-None", ok, "" if ok else "the 1990 default is not limited to the case where no date is held", loc(p, rfn))
+        present_ok, absent_ok = True, True
+        seen_p = seen_a = 0
+        got_p, got_a = set(), set()
+        for q in paths:
+            i = q.index_of(n.id)
+            if i is None:
+                continue
+            read_before = any((k := q.index_of(rn.id)) is not None and k < i for rn, _, _ in reads)
+            # did the read raise on this path (try/except spelling of 'no cache')?
+            raised = any(cw[1] is True and any(a.startswith("raises(") and ("open(" in a or "read_" in a) for a in cw[0].atoms()) for cw in q.conds[: q.marks[n.id]])
+            v = value_on_path(q, cfg, held[0], upto=i)
+            src = origins(q, cfg, held[0], i, params)
+            if read_before and not raised:
+                seen_p += 1
+                ok = from_cache(src) and text(v).endswith("dtprofup") and NET not in src
+                got_p.add(text(v))
+                present_ok &= ok
+            else:
+                seen_a += 1
+                ok = isinstance(v, ast.Constant) and v.value is None
+                got_a.add(text(v))
+                absent_ok &= ok
+        if seen_p:
+            rep.check("K-R4", "request_profile:dtprofup-when-cache-present", present_ok, f"with the cache present the date sent is {sorted(got_p)}; expected the DTPROFUP parsed from the cached profile" if not present_ok else "", loc(p, c))
+        if seen_a:
+            rep.check("K-R4", "request_profile:dtprofup-when-cache-absent", absent_ok, f"with the cache absent the date sent is {sorted(got_a)}; expected None" if not absent_ok else "", loc(p, c))
+    rfn = need(p, ci, "_request_profile")
+    rparams = params_of(rfn)
+    rpaths = enumerate_paths(rfn, None, Expander(rfn), resolve=False)
+    rcfg = rpaths.cfg
+    seen = 0
+    ok_passes, ok_default = True, True
+    got = set()
+    undecided = False
+    where = rfn
+    for n in rcfg.nodes:
+        if n.stmt is None or n.kind in ("join", "handlers"):
+            continue
+        for c in n.calls():
+            if not (isinstance(c.func, ast.Name) and c.func.id == "PROFRQ"):
+                continue
+            where = c
+            b = _bind(c, [])
+            for q in rpaths:
+                i = q.index_of(n.id)
+                if i is None:
+                    continue
+                seen += 1
+                if "dtprofup" not in b:
+                    ok_passes = False
+                    got.add("<nothing>")
+                    continue
+                v = value_on_path(q, rcfg, b["dtprofup"], upto=i)
+                t = text(v)
+                got.add(t)
+                known_none = simple_conds(q.conds[: q.marks[n.id]]).get("dtprofup is None")
+                if t == "dtprofup":
+                    if known_none is True:
+                        ok_passes = False  # sends None
+                    continue
+                if isinstance(v, ast.BoolOp) and isinstance(v.op, ast.Or) and text(v.values[0]) == "dtprofup":
+                    continue
+                if "dtprofup" in {x.id for x in ast.walk(v) if isinstance(x, ast.Name)}:
+                    undecided = True
+                    continue
+                # a value that does not depend on the parameter: only acceptable when the parameter is known to be None
+                if known_none is not True:
+                    ok_default = False
+    if not seen:
+        raise AnalysisError("K-R4: _request_profile no longer builds a PROFRQ")
+    if undecided:
+        rep.note(f"K-R4 undecided: PROFRQ(dtprofup=...) computed from the parameter in an unrecognised way: {sorted(got)}")
+    rep.check("K-R4", "_request_profile:PROFRQ(dtprofup)", ok_passes, f"PROFRQ.dtprofup is {sorted(got)}" if not ok_passes else "", loc(p, where))
+    rep.check("K-R4", "_request_profile:default-only-when-None", ok_default, "" if ok_default else f"the 1990 default is not limited to the case where no date is held: PROFRQ.dtprofup is {sorted(got)}", loc(p, where))
 
 
-def _before(cfg: CFG, n: Node) -> Set[int]:
-    """ids of nodes from which n is reachable"""
-    out = set()
-    for m in cfg.nodes:
-        if n.id in cfg.reachable(m.id):
-            out.add(m.id)
-    return out
-
-
-def _assume_exists(cache: str, flag: bool):
-    def f(a, b, lab):
-        if a.kind == "test" and lab in ("true", "false") and text(a.stmt.test) == f"{cache}.exists()":
-            return (lab == "true") == flag
-        return True
-
-    return f
-
-
-def _unconditional_components(expr, defs, depth=6) -> Set[str]:
+def _unconditional_components(expr, depth=12) -> Set[str]:
     """self.<attr> reads that contribute to the value on every evaluation: top-level interpolations of
-    f-strings / format() / '+' / path '/', through local names; operands of `or`, `and`, conditional
-    expressions only count for their first (always evaluated and, for `or`, not always used) part - so
-    they do not count at all."""
+    f-strings / format() / '+' / path '/', through calls; operands of `or`, `and`, conditional
+    expressions do not count."""
     out: Set[str] = set()
     if expr is None or depth <= 0:
         return out
@@ -203,29 +498,26 @@ def _unconditional_components(expr, defs, depth=6) -> Set[str]:
     if isinstance(expr, ast.JoinedStr):
         for v in expr.values:
             if isinstance(v, ast.FormattedValue):
-                out |= _unconditional_components(v.value, defs, depth - 1)
+                out |= _unconditional_components(v.value, depth - 1)
         return out
     if isinstance(expr, ast.BinOp) and isinstance(expr.op, (ast.Add, ast.Div, ast.Mod)):
-        return _unconditional_components(expr.left, defs, depth - 1) | _unconditional_components(expr.right, defs, depth - 1)
-    if isinstance(expr, ast.Tuple):
+        return _unconditional_components(expr.left, depth - 1) | _unconditional_components(expr.right, depth - 1)
+    if isinstance(expr, (ast.Tuple, ast.List)):
         for e in expr.elts:
-            out |= _unconditional_components(e, defs, depth - 1)
+            out |= _unconditional_components(e, depth - 1)
         return out
     if isinstance(expr, (ast.BoolOp, ast.IfExp)):
         return set()
     if isinstance(expr, ast.Call):
         for a in expr.args:
-            out |= _unconditional_components(a, defs, depth - 1)
+            out |= _unconditional_components(a.value if isinstance(a, ast.Starred) else a, depth - 1)
         for k in expr.keywords:
-            out |= _unconditional_components(k.value, defs, depth - 1)
+            out |= _unconditional_components(k.value, depth - 1)
         if isinstance(expr.func, ast.Attribute):
-            out |= _unconditional_components(expr.func.value, defs, depth - 1)
+            out |= _unconditional_components(expr.func.value, depth - 1)
         return out
-    if isinstance(expr, ast.Name):
-        ds = [d for d in defs.get(expr.id, []) if d.kind == "assign"]
-        if len(ds) == 1:
-            return _unconditional_components(ds[0].value, defs, depth - 1)
-        return set()
     if isinstance(expr, ast.Attribute):
-        return _unconditional_components(expr.value, defs, depth - 1)
+        return _unconditional_components(expr.value, depth - 1)
+    if isinstance(expr, ast.Subscript):
+        return _unconditional_components(expr.value, depth - 1)
     return out
